@@ -198,9 +198,9 @@ func C16(p *Prog, r *Run) {
 	r.Rule("C16.3", "no other shared writes: through its parameters the goroutine writes only Population.innovations (locked) and superChampOffspring of its own species' champion", func() {
 		wt := NewWriteThrough(p, S)
 		allowed := map[string]string{
-			"p|Population.innovations":          "append under the mutex (C16.1)",
-			"sp|Organism.superChampOffspring":   "the champion of the goroutine's own species",
-			"wg|deref":                          "WaitGroup",
+			"p|Population.innovations":        "append under the mutex (C16.1)",
+			"sp|Organism.superChampOffspring": "the champion of the goroutine's own species",
+			"wg|deref":                        "WaitGroup",
 		}
 		facts := wt.W[root]
 		for _, t := range facts {
